@@ -56,9 +56,43 @@ def corpus_case(rng, idx):
     return {"machine": machine, "cfg": kit.cfg(rng), "ops": ops}
 
 
+def pre_productmd_case(rng):
+    """a pre-productmd .treeinfo as third parties wrote them (not derived from a file of ours)"""
+    arch = pick(rng, ["x86_64", "ppc64", "s390x", "i386", "src"])
+    g = {"family": pick(rng, ["Spacewalk", "My Product", "Tools", "\u00dcn\u00efcode Linux", "OS"]), "version": pick(rng, ["7.0", "21", "8", "1.2.3"]),
+         "arch": arch, "variant": pick(rng, ["Server", "Client", "AS", "Tools"]),
+         "timestamp": pick(rng, ["1417653911.68", "1417653911", "1.5", "12345"])}
+    g["name"] = "%s %s" % (g["family"], g["version"])
+    r = rng.random()
+    if r < 0.3:
+        g["packagedir"] = ""
+    elif r < 0.7:
+        g["packagedir"] = pick(rng, ["Packages", "Server", "RPMS/", "a/b/c", "."])
+    r = rng.random()
+    if r < 0.5:
+        g["repository"] = pick(rng, ["repo/os", "Server", ".", "a/b/", "repo"])
+    r = rng.random()
+    if r < 0.3:
+        n = rng.randint(1, 4)
+        g["discnum"] = str(n)
+        if rng.random() < 0.5:
+            g["totaldiscs"] = str(n + rng.randint(0, 3))
+    elif r < 0.4:
+        g["totaldiscs"] = str(rng.randint(1, 4))
+    sections = {}
+    if arch != "src" and rng.random() < 0.5:
+        sections["images-%s" % arch] = {"kernel": "images/pxeboot/vmlinuz", "boot.iso": "images/boot.iso"}
+    if rng.random() < 0.3:
+        sections["stage2"] = {"mainimage": "images/install.img"}
+    ops = [{"op": "ti_pre_productmd_synth", "path": "/sim/d/.treeinfo", "general": g, "sections": sections, "via": pick(rng, ["path", "handle", "loads"])}]
+    return {"machine": "M-TI", "cfg": {"simset": pick(rng, ["insertion", "shuffle"])}, "ops": ops}
+
+
 def generate(rng, tier, idx):
     if idx % 8 == 7:
         return corpus_case(rng, idx)
+    if idx % 16 == 6:
+        return pre_productmd_case(rng)
     which = idx % 8
     if which in (0, 1):
         kit = KITS["M-CI"]
@@ -95,6 +129,9 @@ def generate(rng, tier, idx):
         down = {"op": "ti_downgrade", "path": kit.path, "version": pick(rng, ["1.1", "1.0", "0.3", "0.3", "0.0"])}
     ops.append(kit.dump_op(K, rng))
     ops.append(down)
+    if kit.machine != "M-TI" and rng.random() < 0.3:
+        # old documents were not written by this library: the key order of their JSON objects is arbitrary
+        ops.append({"op": "fs_reorder_json", "path": kit.path, "seed": rng.randrange(1 << 30), "how": pick(rng, ["shuffle", "reverse"])})
     ops.append({"op": "restart", "path": kit.path, "via": pick(rng, ["path", "handle", "loads"]), "offset": rng.randint(0, 500)})
     if kit.machine == "M-IM" and K["imgs"] and rng.random() < 0.5:
         # the upgraded object must behave like a current one: a colliding image (same identity, other checksums) is refused
